@@ -749,9 +749,9 @@ static void alloc_body(Run &r, Ctx &x, uint64_t &nontrivial, Tally &tally)
 void mc_jobs(Tier t, std::vector<std::string> &jobs)
 {
 	std::vector<int> bk;
-	// A runs through every storage kind; B (source / second target of copies) through one storage per distinct inline capacity
+	// A runs through every storage kind; B (source / second target of copies) through storages of inline capacity 12, 20, 60, 84, 212, 252
 	if (t == Quick) bk = { EMB16, ITEM32, NEW256 };
-	else bk = { EMB16, NODE64, NEW32, NEW64, CXXNODE, NEW128, NODE256, NEW256 };
+	else bk = { EMB16, NODE64, NEW64, CXXNODE, NODE256, NEW256 };
 	for (int a = 0; a < NKINDS; ++a) for (int b : bk) jobs.push_back(std::string("A=") + kname[a] + ",B=" + kname[b]);
 	jobs.push_back("alloc");
 }
